@@ -68,6 +68,19 @@ def extendFromSlice (dr : Bool) (c src : Cols) : Model.Out :=
 open Soa.Lp in
 def extend (dr : Bool) (c : Cols) (es : List Cols) : Model.Out :=
   (run { dr := dr, ps := [.elems es], M := methods dr c, fuel := c.firstLen + 2 } lp_PVec_Extend_P_extend c).getD (Model.extend c es)
+/-- is this statement tree literally `<Self as Extend<P>>::extend(self, iter.into_iter().map(|item| item.to_owned()))`? -/
+def isOwnedExtend (b : Soa.Lp.Body) : Bool :=
+  match b.stmts, b.tail with
+  | [], some (.fcall "<SelfasExtend<P>>::extend" [.self_, .mcall (.mcall (.param 0) "into_iter" []) "map"
+      [.lam ["item"] (.mcall (.var "item") "to_owned" [])]]) => true
+  | _, _ => false
+/-- `Extend<Ref>` (`vec.extend(&other)`, `vec.extend(other.iter())`): as extracted it is the extracted `Extend<T>` loop over
+    the owned copies (`to_owned`: one clone per field, in field order, per element) of the items -/
+def extendRefs (dr : Bool) (c src : Cols) : Model.Out :=
+  if isOwnedExtend lp_PVec_Extend_PRef_a_extend then
+    let o := extend dr c ((List.range src.firstLen).map (Model.rowCols src))
+    { st := o.st, panicked := o.panicked, ev := { clones := src.flat } }
+  else Model.extendFromSlice c src
 /-- hand-written: `extend` from an iterator that panics at item `k` — the items before it are pushed, the rest is destroyed -/
 def extendBoomModel (dr : Bool) (c : Cols) (es : List Cols) (k : Nat) : Model.Out :=
   let r := Model.extend c (es.take k)
@@ -468,11 +481,17 @@ def stepCore (cx : Ctx) (w : World) (ws : List String) : StepOut :=
       let e := sh.elem t
       elemOp r (Gen.resize dr (getI r) n e) (Spec.resize dr (getS r) n e.rows) false e.flat
     | _, _, _ => badOp w
-  | ["extend_from_slice", r, q] | ["extend_refs", r, q] | ["extend_refs_f", r, q] =>
+  | ["extend_from_slice", r, q] =>
     match parseReg r, parseReg q with
     | some r, some q =>
       if r == q then badOp w else
       elemOp r (Gen.extendFromSlice dr (getI r) (getI q)) (Spec.extendFromSlice (getS r) (getS q)) false []
+    | _, _ => badOp w
+  | ["extend_refs", r, q] | ["extend_refs_f", r, q] =>
+    match parseReg r, parseReg q with
+    | some r, some q =>
+      if r == q then badOp w else
+      elemOp r (Gen.extendRefs dr (getI r) (getI q)) (Spec.extendFromSlice (getS r) (getS q)) false []
     | _, _ => badOp w
   | ["to_vec", r, q] | ["to_vec_sm", r, q] | ["to_vec_ts", r, q] | ["to_vec_tsm", r, q] =>
     match parseReg r, parseReg q with
